@@ -31,6 +31,7 @@ type subResult struct {
 	Obl       []eng.Obligation `json:"obligations"`
 	Notes     []string         `json:"notes"`
 	Functions []string         `json:"functions"`
+	Spans     []eng.Span       `json:"spans,omitempty"`
 	Packages  int              `json:"packages"`
 	Files     int              `json:"files"`
 	Ignored   []string         `json:"ignored"`
@@ -174,6 +175,7 @@ func evalOne(cfg eng.Config, pr *rules.Property, tier string) (res subResult) {
 	res.Obl = c.Obl
 	res.Notes = c.Notes
 	res.Functions = c.Functions()
+	res.Spans = c.Spans()
 	res.Packages = len(p.Pkgs)
 	res.Files = len(p.Files)
 	res.Ignored = p.IgnoredFiles
